@@ -238,4 +238,22 @@ MNext(it, mem, chunks, kinds, w2) ==
     ELSE LET rc == MReadChunk(it, mem, chunks, kinds) IN
          IF ~rc.ok THEN [ret |-> FALSE, mem |-> rc.mem, it |-> rc.it]
          ELSE MNext(rc.it, rc.mem, chunks, kinds, w2)
+
+(* ------------------------- algorithm level, part 3: which decoder reads which entry ----------- *)
+(* A cache entry starts with the prefix of the codec that wrote it ("dvs", "dss"; dss2 writes     *)
+(* "dss" too) or has none (raw big-endian postings, be32).  Entry points: hdr = decodePostings     *)
+(* (prefix -> codec, anything else: error), cached = decodeCachedPostings (prefix -> codec,        *)
+(* anything else: read as raw), dvs / dss = a codec's own decoder (checks its prefix).             *)
+EncPrefix(enc) == CASE enc \in {"dss", "dss2"} -> "dss" [] enc = "dvs" -> "dvs" [] OTHER -> ""
+EncFormat(enc) == CASE enc \in {"dss", "dss2"} -> "streamed" [] enc = "dvs" -> "block" [] OTHER -> "raw"
+(* the payload format an entry point will parse a blob with this prefix as, or "refuse" *)
+ParsesAs(dec, prefix) ==
+    CASE dec = "hdr" -> (IF prefix = "dvs" THEN "block" ELSE IF prefix = "dss" THEN "streamed" ELSE "refuse")
+      [] dec = "cached" -> (IF prefix = "dvs" THEN "block" ELSE IF prefix = "dss" THEN "streamed" ELSE "raw")
+      [] dec = "dvs" -> (IF prefix = "dvs" THEN "block" ELSE "refuse")
+      [] dec = "dss" -> (IF prefix = "dss" THEN "streamed" ELSE "refuse")
+(* "list": the original list comes out; "refuse": an error.  A payload parsed as another format  *)
+(* is garbage to that parser; the formats are self-checking (snappy framing / block length /      *)
+(* "4 * count bytes follow"), so the parser refuses.                                               *)
+DecodeOutcome(enc, dec) == IF ParsesAs(dec, EncPrefix(enc)) = EncFormat(enc) THEN "list" ELSE "refuse"
 =============================================================================
